@@ -402,6 +402,10 @@ pub fn mutants(env: &Env, d: &ADef, v: &RV, r: &mut Rng) -> Vec<(String, RV)> {
                     if let Some(w) = wrong_kind(env, t) {
                         out.push((format!("variant {} with a payload of the wrong kind", var.id), RV::Enum(var.id, Box::new(w))));
                     }
+                } else {
+                    // a variant without a type carries the unit value and nothing else
+                    let w = if r.bool() { RV::I32(7) } else { RV::Struct(vec![(0, RV::U8(1))]) };
+                    out.push((format!("unit variant {} with a payload", var.id), RV::Enum(var.id, Box::new(w))));
                 }
             }
             out.push(("not an enum".into(), RV::Str(b"x".to_vec())));
